@@ -198,19 +198,25 @@ func (a *application) terminate(pid gen.PID, reason error) {
 		a.reason = gen.TerminateReasonNormal
 	}
 
+	// As soon as the state is Loaded the application can be started again, and start()
+	// replaces the per-run fields (stopped, reason, mode, started, parent). Take what the rest
+	// of this function needs before the state is published.
+	reason = a.reason
+	mode := a.mode
+	stopped := a.stopped
+	a.started = 0
+	a.parent = ""
+
 	lib.VerifPoint("app.term.swap", a.spec.Name)
 	old := atomic.SwapInt32(&a.state, int32(gen.ApplicationStateLoaded))
 	if old == int32(gen.ApplicationStateLoaded) {
 		return
 	}
-	if a.stopped != nil {
-		close(a.stopped)
+	if stopped != nil {
+		close(stopped)
 	}
 
-	a.started = 0
-	a.parent = ""
-
-	a.node.log.Info("application %s (%s) stopped with reason %s", a.spec.Name, a.mode, a.reason)
+	a.node.log.Info("application %s (%s) stopped with reason %s", a.spec.Name, mode, reason)
 
 	if lib.Recover() {
 		defer func() {
@@ -222,7 +228,7 @@ func (a *application) terminate(pid gen.PID, reason error) {
 		}()
 	}
 
-	a.behavior.Terminate(a.reason)
+	a.behavior.Terminate(reason)
 
 	network := a.node.Network()
 	if network.Mode() != gen.NetworkModeEnabled {
